@@ -120,8 +120,13 @@ def _migrate_csv_to_rules(csv_file: str, config_dir: str, backup: bool = True) -
         csv_rules = load_merchant_rules(csv_file)
         content = csv_to_merchants_content(csv_rules)
 
-        # Write new file
+        # Write new file (never over an existing one - it may hold hand-written rules)
         new_file = os.path.join(config_dir, 'merchants.rules')
+        if os.path.exists(new_file):
+            print(f"  {C.RED}✗{C.RESET} Migration skipped: config/merchants.rules already exists")
+            print(f"      Add 'merchants_file: config/merchants.rules' to settings.yaml to use it,")
+            print(f"      or move it away and run the migration again.")
+            return False
         with open(new_file, 'w', encoding='utf-8') as f:
             f.write(content)
         print(f"  {C.GREEN}✓{C.RESET} Created: config/merchants.rules")
@@ -129,8 +134,14 @@ def _migrate_csv_to_rules(csv_file: str, config_dir: str, backup: bool = True) -
 
         # Backup old file
         if backup and os.path.exists(csv_file):
-            shutil.move(csv_file, csv_file + '.bak')
-            print(f"  {C.GREEN}✓{C.RESET} Backed up: merchant_categories.csv → .bak")
+            # Do not overwrite an earlier backup
+            backup_file = csv_file + '.bak'
+            n = 1
+            while os.path.exists(backup_file):
+                backup_file = f"{csv_file}.bak.{n}"
+                n += 1
+            shutil.move(csv_file, backup_file)
+            print(f"  {C.GREEN}✓{C.RESET} Backed up: merchant_categories.csv → {os.path.basename(backup_file)}")
 
         # Update settings.yaml to reference new file
         settings_path = os.path.join(config_dir, 'settings.yaml')
